@@ -10,6 +10,8 @@ B1 == <<1, MkClamped(1, <<Half>>, <<0>>)>>
 L3 == <<1, MkClamped(1, <<Half>>, <<1>>)>>
 Singles == Curves({K2, U2}, {2, 3}, BOOLEAN, Seed) \cup Surfaces({L3}, {K2}, {3}, BOOLEAN, Seed)
            \cup Volumes({B1}, {L3}, {K2}, BOOLEAN, Seed)
+           \* degrees decreasing from u to v to w (the start point of the domain is read per direction)
+           \cup Surfaces({K2}, {L3}, {3}, BOOLEAN, Seed) \cup Volumes({K2}, {L3}, {B1}, {FALSE}, Seed)
 \* containers: sequences of 2..3 curves of the same spatial dimension with different start points
 Conts == {<<MkShape(<<2>>, <<K2[2]>>, dim, r1, Seed), MkShape(<<2>>, <<K2[2]>>, dim, r2, Seed + 1)>> : dim \in {2, 3}, r1 \in BOOLEAN, r2 \in BOOLEAN}
          \cup {<<MkShape(<<2>>, <<K2[2]>>, 3, TRUE, Seed), MkShape(<<1>>, <<L3[2]>>, 3, FALSE, Seed + 2), MkShape(<<2>>, <<U2[2]>>, 3, FALSE, Seed + 3)>>}
